@@ -189,3 +189,7 @@ func ReplayMain(entries map[string]func()) {
 // StringOfLen returns a string of the given (possibly symbolic) length whose content is
 // opaque to the engine: only len() may be applied to it. Natively: n zero bytes.
 func StringOfLen(n int) string { return string(make([]byte, n)) }
+
+// AliasBytes returns a slice over the same memory that the engine tracks as a separate
+// mapping object (so that MarkDead on it does not affect other views). Natively: b.
+func AliasBytes(b []byte) []byte { return b }
